@@ -57,7 +57,7 @@ Twin(s) == CASE s = "task_val" -> "ready_val" [] s = "task_err" -> "ready_err" [
 
 Val(n) == [st |-> "val", v |-> n]
 Err    == [st |-> "err", v |-> 0]
-Exc(t) == [st |-> "exc", v |-> t]        \* t: 1 = thrown by a callback, 2 = returned in a Result, 3 = set by the source
+Exc(t) == [st |-> "exc", v |-> t]        \* t: 1 = thrown by a callback, 2 = returned in a Result, 3 = set by the source, 4 = a thrown ResultError
 
 Desc(r) == CASE r.st = "val" -> "v" \o ToString(r.v)
              [] r.st = "err" -> "stop"
@@ -70,6 +70,7 @@ Desc(r) == CASE r.st = "val" -> "v" \o ToString(r.v)
 Outcome(b, n) ==
   CASE b = "val"            -> Val(n + 1)
     [] b = "throw"          -> Exc(1)
+    [] b = "throw_re"       -> Exc(4)      \* throws what Result::Ok() throws for an Error: still "the callback threw"
     [] b = "res_val"        -> Val(n + 2)
     [] b = "res_err"        -> Err
     [] b = "res_exc"        -> Exc(2)
